@@ -11,5 +11,7 @@ int main(int argc, char** argv)
   tg.push_back({"misc", [](Tape& t, Ctx& c) { target<G_MISC, double, LocalBE>(t, c, {K_RICH, K_RGCR, K_IDRS}, {3, 2, 3}, maxn()); }, 96, 2, 60000});
   // thorough tier: same decoder, systems up to n = 120
   tg.push_back({"misc_big", [](Tape& t, Ctx& c) { target<G_MISC, double, LocalBE>(t, c, {K_RICH, K_RGCR, K_IDRS}, {3, 2, 3}, 120); }, 96, 3, 120000});
+  // the practice of tutorial_06_global: unit filter, system matrix left unfiltered, convergence claimed (the solver's own filter_def/filter_cor calls carry the constraints)
+  tg.push_back({"misc_unfilt", [](Tape& t, Ctx& c) { c07::force_bits = 7; target<G_MISC, double, LocalBE>(t, c, {K_RICH, K_RGCR, K_IDRS}, {1, 2, 5}, maxn()); c07::force_bits = 0; }, 96, 2, 60000});
   return main_impl(argc, argv, tg);
 }
